@@ -403,7 +403,12 @@ func genDirTraverse(g *vlib.G) {
 			s := s
 			for idk := 0; idk < nIDMaps; idk++ {
 				for v := 0; v < nVariants; v++ {
-					if idk != idIdentity && v == vOrdDesc {
+					// all four variants under the identity map; ascending and
+					// one gonum type under the other two maps.
+					if idk == idReversed && (v == vOrdDesc || v == vMulti) {
+						continue
+					}
+					if idk == idSparse && (v == vOrdDesc || v == vSimple) {
 						continue
 					}
 					b := build(&s, idk, v)
